@@ -1125,8 +1125,11 @@ def enumerate_cases(tier):
 
 
 def _scalar(bits):
+    # Hypothesis draws from a wide integer range are biased towards small magnitudes: exponents beyond the
+    # group order (where reduction modulo a declared order would show) get strategies of their own
+    beyond = st.integers(2**bits, 2**(bits + 70))
     return st.one_of(st.integers(-12, 12), st.integers(-2**20, 2**20),
-                     st.integers(-2**(bits + 70), 2**(bits + 70)))
+                     st.integers(-2**(bits + 70), 2**(bits + 70)), beyond, beyond.map(lambda v: -v))
 
 
 _CL_GEN_DISCS = _cl_discs(3, 400) + [-3299, -1123, -4027, -32783, -104743, -1299827, -(2**31 - 1),
